@@ -23,6 +23,9 @@ def cases(tier, rng, dist):
             for cells in itertools.product((0, 1), repeat=R * Ns):
                 m = [list(cells[i * Ns:(i + 1) * Ns]) for i in range(R)]
                 yield {"f": "ts", "m": m, "dtype": "int" if sum(cells) % 2 else "float"}
+    for R, Ns in ((40, 300), (3, 70001), (300, 3), (17, 1025)) if tier == "quick" else ((40, 300), (3, 70001), (300, 3), (17, 1025), (64, 64), (129, 257)):
+        yield {"f": "ts", "big": [R, Ns, rng.randint(0, 10**6)], "m": [[0]], "dtype": rng.choice(["int", "float", "bool"])}
+    yield {"f": "sim", "m": [[rng.randint(0, 1) for _ in range(5)] for _ in range(4)], "ov": "none", "num_perm": 70001, "keep": False, "plus1": True, "seed": rng.randint(0, 10**6), "big": True}
     for _ in range(100 if tier == "quick" else 1000):
         R, Ns = rng.randint(2, 7), rng.randint(1, 8)
         yield {"f": "ts", "m": [[rng.randint(0, 1) for _ in range(Ns)] for _ in range(R)], "dtype": rng.choice(["int", "float", "bool"])}
@@ -63,6 +66,13 @@ OV = {"none": None, "zero_int": 0, "zero_float": 0.0, "half": 0.5, "one": 1, "bi
 def run(c):
     if c["f"] == "ts":
         dt = {"int": np.int64, "float": float, "bool": bool}[c["dtype"]]
+        if c.get("big"):
+            R, Ns, sd = c["big"]
+            a = np.random.RandomState(sd).randint(0, 2, size=(R, Ns)).astype(dt); a0 = a.copy()
+            r = guarded(lambda: float(irr.compute_ts(a)), secs=120)
+            y = a0.astype(np.int64).sum(0)
+            num = int((y * (y - 1) + (R - y) * (R - y - 1)).sum())
+            return {"r": list(r), "unmodified": bool((a == a0).all()), "exact": [num, Ns * R * (R - 1)]}
         a = np.array(c["m"], dtype=dt)
         a0 = a.copy()
         r = guarded(lambda: float(irr.compute_ts(a)))
@@ -125,7 +135,7 @@ def oracle(c, o):
             return {"why": "compute_ts modified its input", "cls": "irr:input-modified"}
         if o["r"][0] != "ok":
             return {"why": f"compute_ts raised {o['r']}", "cls": "irr:ts-raises"}
-        e = exact_ts(c["m"])
+        e = exact_ts(c["m"]) if not c.get("big") else Fraction(o["exact"][0], o["exact"][1])
         if not math.isfinite(o["r"][1]):
             return {"why": f"compute_ts={o['r'][1]} for the {len(c['m'])} x {len(c['m'][0])} matrix {c['m']}; the fraction of agreeing rater pairs is {e}", "cls": "irr:ts-value"}
         if abs(Fraction(o["r"][1]) - e) > Fraction(1, 10**10):
@@ -188,11 +198,11 @@ def mat(m):
 
 def to_coq(c, o):
     if c["f"] == "ts":
-        if o["r"][0] != "ok" or not math.isfinite(o["r"][1]):
+        if o["r"][0] != "ok" or not math.isfinite(o["r"][1]) or c.get("big"):
             return None
         return f"TsCase {mat(c['m'])} {cq(Fraction(o['r'][1]))}"
     if c["f"] == "sim":
-        if not o["ok"]:
+        if not o["ok"] or c.get("big"):
             return None
         n = c["num_perm"]
         expected_calls = n + (1 if o["ov"] is None else 0)
